@@ -341,3 +341,17 @@ func (r *Run) RecoverMain() {
 		r.Finish()
 	}
 }
+
+// DropParts removes the parts whose name starts with prefix (used when a
+// check aggregates many sub-explorations into one part).
+func (r *Run) DropParts(prefix string) {
+	r.mu.Lock()
+	defer r.mu.Unlock()
+	var keep []*Part
+	for _, p := range r.parts {
+		if !strings.HasPrefix(p.Name, prefix) {
+			keep = append(keep, p)
+		}
+	}
+	r.parts = keep
+}
